@@ -60,6 +60,9 @@ TRUSTED_EXTRA = [
     "fuel (Generated/ExprsDescLoop.lean: the outer loop of biweight_location; rules at the top of the file)",
     "harness/padslices.py + lean/CnvVerif/Model/PadExt5.lean: Python's rule for a step -1 slice (negative bounds count from "
     "the end, clipped to [-1, n-1]) in which smoothing._pad_array is written (Generated/ExprsPad.lean)",
+    "harness/cwloop.py + lean/CnvVerif/Model/SmoothIterPrimExt5b.lean: the reading of the fixed-count loop over whole-array "
+    "statements (np.convolve(.., mode='same'), element-wise * and /) in which smoothing.convolve_weighted is written "
+    "(Generated/ExprsCwIter.lean; rules at the top of harness/cwloop.py)",
 ]
 
 PREFIX = os.environ.get("VERIF_C19_MODEL", "") == "prefix"   # model of the unrepaired functions
